@@ -41,10 +41,30 @@
       unreadable reference, PCR index other than 0/1): they then leave no trace
       in PCRs or event log.
 
+    - a boot may run on a TPM object that served earlier boots: [reuse] says how the
+      object was obtained ([RNew] NewTPM(); the object of the earlier boots after
+      [RReset] Reset(), [RResetNoInit] DoNotUse_ResetNoInit(), [RResetNoInitAlgos]
+      DoNotUse_ResetNoInit() + SupportedAlgos restored, as pcrbruteforcer does);
+      [recycle H prev r] is the recycled object, [boot_start r] the state the boot
+      starts from, [run_boots] a session of boots on one object (section 5); one
+      level lower, [grun_boots] (Model/BootSimGen.v) is the same session on the
+      buffer-level TPM of Model/TPMSlices.v (C02), where the PCR bytes of the
+      earlier boots physically remain in the arrays the next boot re-uses;
+    - [logged_flow ref bytes_of H l fl]: every extend is logged.  The items, in
+      order and however grouped in steps: before the startup anything that cannot
+      touch a PCR ([pre_item]: LogInit, EV_NO_ACTION entries, Panic, and TPMEvent /
+      TPMExtend, which a TPM that was not started refuses); the startup TPMInit(l) /
+      InitTPM(l, withLog); then ([logged_body]) the measurements of [wf_flow]
+      (extend+log of the same bytes, of any length for the TPMExtend/TPMEventLogAdd
+      pair) and, in any order and number, LogInit at any locality, further
+      InitTPM(_, _), bare TPMEventLogAdd of EV_NO_ACTION entries.  Every [wf_flow] is
+      a [logged_flow]; so is InitTPM(l,false); Measure; LogInit(l); Measure.
+
     Naming: [_partial] = the statement carries a hypothesis the property text
     does not have (said in the comment above it); [_refuted] = closed witness that
     the statement without that hypothesis is false of the faithful model. *)
 From CSS Require Import Lib.Base Model.TPM Proofs.TPM Model.BootSim Proofs.BootSim.
+From CSS Require Import Model.TPMSlices Proofs.TPMSlices Model.BootSimGen Proofs.BootSimSlices.
 
 (** * 1. Command log *)
 
@@ -169,6 +189,44 @@ Theorem C01_tpmReplay_partial : forall ref bytes_of H,
 Proof. exact tpm_replay_eq. Qed.
 Print Assumptions C01_tpmReplay_partial.
 
+(** The same on EVERY flow in which every extend is logged ([logged_flow]: the
+    startup entries of LogInit and other EV_NO_ACTION entries may be anywhere --
+    the event log may be set up later, or earlier, than the TPM --, at any
+    locality, in any number, or absent), on every boot of a session ([r]: new or
+    recycled TPM object).  EV_NO_ACTION entries are informational: the routine
+    must fold none of them and take nothing from them.  Subsumes
+    C01_tpmReplay_partial ([C01_wf_flow_is_logged_flow]); PARTIAL in the same
+    respect only (TPMEvents typed EV_NO_ACTION). *)
+Theorem C01_tpmReplay_every_extend_logged_partial : forall ref bytes_of H,
+  (forall a x, length (H a x) = hsize a) ->
+  forall r fl l a,
+  logged_flow ref bytes_of H l fl -> is_supported a = true ->
+  exists v, get (pcrs (s_tpm (fst (run_flow ref bytes_of H (boot_start r) fl)))) 0 a = Ok v /\
+            EL.tpm_replay H (to_entries (evlog (s_tpm (fst (run_flow ref bytes_of H (boot_start r) fl))))) 0 a l = Ok v.
+Proof. exact tpm_replay_logged. Qed.
+Print Assumptions C01_tpmReplay_every_extend_logged_partial.
+
+Theorem C01_wf_flow_is_logged_flow : forall ref bytes_of H l logged fl,
+  wf_flow ref bytes_of H l logged fl -> logged_flow ref bytes_of H l fl.
+Proof. exact wf_flow_logged. Qed.
+Print Assumptions C01_wf_flow_is_logged_flow.
+
+(** InitTPM(3,false); Measure(PCR0); LogInit(3); Measure(PCR0); LogInit(9) and a bare
+    EV_NO_ACTION entry: a [logged_flow] that is no [wf_flow]; tpm.EventLog.Replay(0,
+    SHA1, 3) gives PCR0 (not the startup value).  The routine that knows only the
+    log is rightly not claimed here: it rejects a log whose startup entry follows
+    a measurement of the same bank ('already initialized'). *)
+Example C01_logged_flow_satisfiable : logged_flow (list Z) lit_bytes toy_hash 3 fl_late_loginit.
+Proof. exact late_loginit_logged. Qed.
+
+Theorem C01_evlog_replay_late_loginit_refuted :
+  exists v, get (pcrs (toy_run fl_late_loginit)) 0 ALG_SHA1 = Ok v /\
+            EL.tpm_replay toy_hash (to_entries (evlog (toy_run fl_late_loginit))) 0 ALG_SHA1 3 = Ok v /\
+            v <> repeat 0 19 ++ [3] /\
+            (forall v', EL.replay toy_hash (to_parsed (evlog (toy_run fl_late_loginit))) 0 ALG_SHA1 <> Ok v').
+Proof. exact late_loginit_values. Qed.
+Print Assumptions C01_evlog_replay_late_loginit_refuted.
+
 (** * 4. Digests *)
 
 (** Every command in the command log was issued by an item of the flow, and its
@@ -223,6 +281,102 @@ Theorem C01_bytes_are_refs_bytes : forall rs b,
   denotes RF.ref RF.ref_rawbytes rs b <-> RF.refs_rawbytes rs = Ok b.
 Proof. exact denotes_refs. Qed.
 Print Assumptions C01_bytes_are_refs_bytes.
+
+(** * 5. Boots on a TPM object that served earlier boots *)
+
+(** The object a boot starts on does not depend on what the earlier boots left
+    in it, and every boot of a session is the boot of its flow from [boot_start]
+    (= [sim0], a new TPM, unless the object was recycled with
+    DoNotUse_ResetNoInit() alone: then SupportedAlgos is empty and LogInit writes
+    nothing). *)
+Theorem C01_recycled_tpm_boots : forall ref bytes_of H prev,
+  (forall r, recycle H prev r = start_of r) /\
+  (forall bs, run_boots ref bytes_of H prev bs =
+              map (fun b => run_flow ref bytes_of H (boot_start (fst b)) (snd b)) bs) /\
+  (forall r, r <> RResetNoInit -> @boot_start ref r = sim0).
+Proof.
+  intros ref bytes_of H prev. split; [exact (recycle_start H prev)|].
+  split; [intros bs; exact (run_boots_each ref bytes_of H bs prev)|].
+  intros r Hr. destruct r; try reflexivity. contradiction.
+Qed.
+Print Assumptions C01_recycled_tpm_boots.
+
+(** Buffer level.  A session on ONE buffer-level TPM object (Model/TPMSlices.v:
+    explicit backing arrays; Reset / DoNotUse_ResetNoInit re-slice to [:0] and
+    keep the arrays with the old PCR bytes, CommandInit.Apply re-slices them to
+    their capacity and zeroes them in place, CommandExtend.Apply hashes in
+    place), starting from ANY state [x0] the object can be in ([swf]: C02's slice
+    invariant, which holds of a new object and after any commands and resets,
+    [C01_recycled_object_reachable]): after every boot the object shows exactly
+    the TPM of that boot's flow run from [boot_start] (PCR values, event log,
+    command log, SupportedAlgos), with the same MeasuredData and the same step
+    issues.  So nothing of the earlier boots -- the PCR1 value they ended with,
+    for one -- can reach a later boot, and every theorem above holds of every
+    boot of a session. *)
+Theorem C01_recycled_object_boots : forall ref bytes_of H,
+  (forall a x, length (H a x) = hsize a) ->
+  forall grow x0 bs,
+  swf x0 ->
+  Forall2 (fun gres b =>
+             let res := run_flow ref bytes_of H (boot_start (fst b)) (snd b) in
+             abs (g_tpm (fst gres)) = s_tpm (fst res) /\
+             g_meas (fst gres) = s_meas (fst res) /\
+             snd gres = snd res)
+          (grun_boots ref bytes_of H sstate (sstep H grow) salgos snew sset_algos x0 bs) bs.
+Proof. exact recycled_object_boots. Qed.
+Print Assumptions C01_recycled_object_boots.
+
+Theorem C01_recycled_object_reachable : forall H,
+  (forall a x, length (H a x) = hsize a) -> forall grow h, swf (srun H grow snew h).
+Proof. exact reachable_swf. Qed.
+Print Assumptions C01_recycled_object_reachable.
+
+(** Section 1 for every boot of a session: the command log of the boot, executed
+    again on the recycled object, rebuilds it; re-executed command by command on
+    a NEW TPM it gives the same PCR bank values and event log; ... *)
+Theorem C01_cmdlog_replay_any_boot : forall ref bytes_of H r fl,
+  let t := s_tpm (fst (run_flow ref bytes_of H (boot_start r) fl)) in
+  run H (start_of r) (cmdlog t) = t /\
+  pcrs (reexec H fresh (cmdlog t)) = pcrs t /\ evlog (reexec H fresh (cmdlog t)) = evlog t.
+Proof. exact cmdlog_replay_boot. Qed.
+Print Assumptions C01_cmdlog_replay_any_boot.
+
+(** ... tpm.Commands.Apply on a new TPM for the boots without step issues (PARTIAL as
+    C01_cmdlog_apply_partial). *)
+Theorem C01_cmdlog_apply_any_boot_partial : forall ref bytes_of H r fl,
+  let t := s_tpm (fst (run_flow ref bytes_of H (boot_start r) fl)) in
+  no_issues (snd (run_flow ref bytes_of H (boot_start r) fl)) ->
+  exists t', commands_apply H fresh (cmdlog t) = (t', Ok tt) /\ pcrs t' = pcrs t /\ evlog t' = evlog t.
+Proof. exact cmdlog_apply_boot. Qed.
+Print Assumptions C01_cmdlog_apply_any_boot_partial.
+
+(** Section 2 for every boot whose object has its SupportedAlgos (PARTIAL as
+    C01_evlog_replay_partial). *)
+Theorem C01_evlog_replay_any_boot_partial : forall ref bytes_of H,
+  (forall a x, length (H a x) = hsize a) ->
+  forall r fl l logged p a,
+  r <> RResetNoInit ->
+  wf_flow ref bytes_of H l logged fl ->
+  logged = true \/ (logged = false /\ l = 0) ->
+  (p = 0 \/ p = 1) -> is_supported a = true ->
+  exists v, get (pcrs (s_tpm (fst (run_flow ref bytes_of H (boot_start r) fl)))) p a = Ok v /\
+            EL.replay H (to_parsed (evlog (s_tpm (fst (run_flow ref bytes_of H (boot_start r) fl))))) p a = Ok v.
+Proof. exact evlog_replay_boot. Qed.
+Print Assumptions C01_evlog_replay_any_boot_partial.
+
+(** Section 4 for every boot: the commands and log entries of a boot are those of
+    the items of ITS flow (nothing of an earlier boot's logs survives). *)
+Theorem C01_digest_is_hash_of_bytes_any_boot : forall ref bytes_of H r fl c,
+  In c (cmdlog (s_tpm (fst (run_flow ref bytes_of H (boot_start r) fl)))) ->
+  exists it, In it (concat fl) /\ item_cmd ref bytes_of H it c.
+Proof. exact digest_is_hash_of_bytes_boot. Qed.
+Print Assumptions C01_digest_is_hash_of_bytes_any_boot.
+
+Theorem C01_evlog_digest_is_hash_of_bytes_any_boot : forall ref bytes_of H r fl p a dg ty evd,
+  In (EV p a dg ty evd) (evlog (s_tpm (fst (run_flow ref bytes_of H (boot_start r) fl)))) ->
+  exists it, In it (concat fl) /\ item_cmd ref bytes_of H it (LogAdd p a dg ty evd).
+Proof. exact evlog_digest_is_hash_of_bytes_boot. Qed.
+Print Assumptions C01_evlog_digest_is_hash_of_bytes_any_boot.
 
 (** * Examples: the hypotheses are satisfiable by non-trivial values *)
 
